@@ -7,7 +7,7 @@
                          (case-insensitively, names unambiguous), nested arbitrarily
    agree t1 t2 v v'    : every element, key and field of v' equals the one of v at the same place
    clean c             : the defect switch map_value_into_key is off *)
-From Coq Require Import List ZArith String.
+From Coq Require Import List ZArith String Permutation.
 From QV Require Import Conv ConvProofs.
 Import ListNotations.
 
@@ -18,6 +18,14 @@ Theorem C20_holds : forall c, clean c -> forall t1 t2 v, compat t1 t2 -> has_typ
   exists v', convert c t1 t2 v = COk v' /\ has_type t2 v' /\ agree t1 t2 v v' /\ convert c t2 t1 v' = COk v.
 Proof. exact convert_compat. Qed.
 Print Assumptions C20_holds.
+
+(* the scalars found in the result (elements, keys, fields, left to right) are exactly the
+   scalars of the source; the order may differ only where struct fields are declared in a
+   different order, which `agree` above accounts for *)
+Theorem C20_leaves : forall c, clean c -> forall t1 t2 v v', compat t1 t2 -> has_type t1 v ->
+  convert c t1 t2 v = COk v' -> Permutation (leaves v') (leaves v).
+Proof. exact convert_leaves. Qed.
+Print Assumptions C20_leaves.
 
 (* second clause: kinds from different classes {bool, string, integer, float, slice, map, struct}
    are refused, whatever the value and whatever the switch *)
